@@ -35,6 +35,7 @@ import collections
 import gc
 import gzip
 import io
+import signal
 import pickle
 import sys
 import tempfile
@@ -433,6 +434,9 @@ class _WriteOnly:
         return len(data)
 
 
+DUMP_WALL_S = 10  # a dump of a <=30-object world takes milliseconds
+
+
 def do_dump(root, proto, api):
     """The bytes nrpickler produces, through dumps() or through dump() into some kind of binary file."""
     if api == "dump":
@@ -658,6 +662,11 @@ class C10(engine.Property):
         elif r < 0.46:
             # a vertex class with its own __setstate__ (written without super())
             cfg["vertex_classes"] = ["Vertex", "MigratingVertex"]
+        elif r < 0.58:
+            # a vertex class that cannot be found by name on the loading side:
+            # the pickle carries the class itself
+            cfg["vertex_classes"] = ["Vertex", rng.choice(sorted(C.LOCAL_VERTEX_CLASSES))]
+            cfg["by_value_class"] = True
         cfg["nu"] = rng.randint(0, 3)
         cfg["grow"] = rng.randint(3, 25)
         cfg["cont"] = rng.randint(3, 25)
@@ -1098,10 +1107,25 @@ class C10(engine.Property):
                 s["probe:deep-under-lowered-recursion-limit"] += 1
                 s["fault:recursion-limit-lowered"] += 1
                 data = with_limit(floor + op["headroom"], lambda: do_dump(root, op["proto"], op["api"]))
-            else:
+            elif deep:
                 data = do_dump(root, op["proto"], op["api"])
+            else:
+                # serialisation must come back: for small worlds (a dump takes
+                # milliseconds) the run's watchdog is wound down to a few
+                # seconds for the duration of the dump
+                left = signal.alarm(0)
+                signal.alarm(DUMP_WALL_S)
+                try:
+                    data = do_dump(root, op["proto"], op["api"])
+                finally:
+                    signal.alarm(left)
         except egsim.HarnessError:
             raise
+        except O.Watchdog:
+            return {"exc": "<did not return>"}, engine.viol(
+                "C10/serialisation-does-not-return",
+                {"op": op, "objects": len(wc.objs), "classes": sorted({type(o).__name__ for o in wc.objs.values()})},
+            )
         except Exception as exc:  # pylint: disable=broad-except
             kind = "C10/serialisation-raised:" + type(exc).__name__
             return {"exc": type(exc).__name__}, engine.viol(
